@@ -45,6 +45,17 @@ func (b *EventBox) Set(event EventType, value any) {
 	b.cond.L.Unlock()
 }
 
+// Update atomically replaces the value of the event with the result of the
+// given function, which receives the pending value (nil if there is none)
+func (b *EventBox) Update(event EventType, fn func(any) any) {
+	b.cond.L.Lock()
+	b.events[event] = fn(b.events[event])
+	if _, found := b.ignore[event]; !found {
+		b.cond.Broadcast()
+	}
+	b.cond.L.Unlock()
+}
+
 // Clear clears the events
 // Unsynchronized; should be called within Wait routine
 func (events *Events) Clear() {
